@@ -210,6 +210,9 @@ class RunningMoments(Unit):
                        z3.And(z3.BoolVal(isinstance(nrv, Arr)), z3.ForAll([j], z3.Implies(z3.And(0 <= j, j < n), z3.Select(nrv.a, j) == z3.Select(rv.a, j) * gamma * z3.If(d(j), 0, 1) + z3.Select(reward.a, j)))) if isinstance(nrv, Arr) else z3.BoolVal(False))
 
 
+RunningMoments.replay = lambda self, label, clause, probes, model: ({"kind": "pure", "which": "reward_norm", "probes": probes} if self.which == "NormalizeVecReward" else None)
+
+
 UNITS = [EnvStep(), AutoReset(), LogStep(), Squash(), ClipAction(), RunningMoments("NormalizeVecObservationWrapper"), RunningMoments("NormalizeVecReward")]
 EXTRA = dict(assumptions=["tanh / arctanh axioms (range, monotone, mutual inverses); floats as reals",
                           "jnp.mean / jnp.var of a batch are its mean and (population) variance: the batch statistics are symbols in the moment-merge identity",
